@@ -605,6 +605,52 @@ func ruleMAPCACHE1(c *Ctx) {
 	} else {
 		c.Oblige("insert-keeps-map-complete", ins.Pos(), bad == "", bad)
 	}
+	// every loop over endOffsets that slices names out with a running start offset advances that offset
+	nLoops := 0
+	for _, fn := range p.FuncsIn("jsontext") {
+		if fn.Body() == nil {
+			continue
+		}
+		finfo := fn.Info()
+		k := 0
+		InspectNoLit(fn.Body(), func(nd ast.Node) bool {
+			rs, ok := nd.(*ast.RangeStmt)
+			if !ok || rs.Value == nil {
+				return true
+			}
+			if fld := SelField(finfo, rs.X); fld == nil || fld.Name() != "endOffsets" {
+				return true
+			}
+			endVar := IdentObj(finfo, rs.Value)
+			// a slice expression [start:end] in the body
+			var startVar types.Object
+			ast.Inspect(rs.Body, func(m ast.Node) bool {
+				if sl, ok := m.(*ast.SliceExpr); ok && sl.Low != nil && sl.High != nil && IdentObj(finfo, sl.High) == endVar {
+					startVar = IdentObj(finfo, sl.Low)
+				}
+				return true
+			})
+			if startVar == nil {
+				return true
+			}
+			nLoops++
+			k++
+			advanced := false
+			for _, as := range findAll[*ast.AssignStmt](rs.Body) {
+				if len(as.Lhs) == 1 && len(as.Rhs) == 1 && IdentObj(finfo, as.Lhs[0]) == startVar && IdentObj(finfo, as.Rhs[0]) == endVar {
+					// must be reached on every iteration that continues: a direct statement of the loop body
+					for _, st := range rs.Body.List {
+						if st == ast.Stmt(as) {
+							advanced = true
+						}
+					}
+				}
+			}
+			c.Oblige(fmt.Sprintf("offset-advances:%s#%d", fn.Name, k), rs.Pos(), advanced, "a loop slices names as allUnquotedNames[start:end] but never advances `start` to `end`: every name after the first would be a cumulative prefix")
+			return true
+		})
+	}
+	c.Floor("loops over endOffsets with a running start offset", nLoops, 2)
 	// removeLast: delete(ns.mapNames, ...) under mapNames != nil, before the truncation
 	rinfo := rm.Info()
 	var delPos, truncPos token.Pos
